@@ -106,3 +106,17 @@ Proof.
       intros H. apply (K [CR] c4 sts1 r c' sts' S4); [rewrite W4, W3, W2, W1; reflexivity | auto | exact H].
     + intros [= <- <- <-]. rewrite W3, W2, W1. exact Z0.
 Qed.
+
+(* ---- the U-Boot stage: the autoboot keys are sent only after the autoboot prompt has been received ---- *)
+Theorem autoboot_keys_only_after_prompt fuel cfg sts c r c' sts' :
+  u_autoboot cfg = true ->
+  (forall tmo out c1, read_until_prompt (Some (SRe AUTOBOOT_RE)) tmo c <> (Ret out, c1)) ->
+  uboot_bringup fuel cfg sts c = (r, c', sts') ->
+  wr (io c') = wr (io c) /\ r <> BOk.
+Proof.
+  intros Ha Hno. unfold uboot_bringup. rewrite Ha.
+  destruct (read_until_prompt (Some (SRe AUTOBOOT_RE)) _ c) as [e1 c1] eqn:E1.
+  destruct (rup_slow _ _ _ _ _ E1) as [_ W1].
+  destruct e1 as [o1| | | | | |]; [exfalso; exact (Hno _ _ _ E1)| | | | | |];
+    intros [= <- <- <-]; (split; [exact W1 | unfold berr; cbn; discriminate]).
+Qed.
